@@ -91,7 +91,8 @@ def gen_fn_scenario(rng: random.Random, static_only=True, simple_sigs=False, bod
         for j in range(maxpos):
             name = j if uniform else (j + 3 * rng.randint(0, 1))
             params.append({"name": name, "kind": "po" if j < npo else "pk", "req": j < reqpos, "ty": rng.choice(pool_types)})
-        for n in kwnames:
+        # declaration order of the keyword-only parameters varies from method to method (and is not alphabetical)
+        for n in (kwnames if rng.random() < 0.5 else kwnames[::-1]):
             if rng.random() < 0.6:
                 params.append({"name": n, "kind": "ko", "req": rng.random() < 0.5, "ty": rng.choice(pool_types)})
         if defs and rng.random() < 0.15:
